@@ -5,6 +5,7 @@
 From Coq Require Import QArith.
 From GV Require Import Vedirect.DrvSem.
 From GV Require Export Api.Api.
+From GV Require Tables.RegList.
 Open Scope Z_scope.
 
 (* what a handler receives (the float64 of a number register as the exact rational) *)
@@ -176,3 +177,18 @@ Fixpoint g_join (sep : list byte) (l : list (list byte)) : list byte :=
   | [x] => x
   | x :: r => x ++ sep ++ g_join sep r
   end.
+
+(* ---- registerValue.go: RegisterValues.GetList ---- *)
+
+(* the four maps name -> value of a RegisterValues; a value is the register with what was read *)
+Record regvalues := mkRV {
+  rv_numbers : list (list byte * (reg * gvalue));
+  rv_texts : list (list byte * (reg * gvalue));
+  rv_enums : list (list byte * (reg * gvalue));
+  rv_fieldlists : list (list byte * (reg * gvalue))
+}.
+
+(* sort.SliceStable(list, func(i, j int) bool { return list[i].Sort() < list[j].Sort() }) *)
+Definition value_key (v : reg * gvalue) : Z := r_sort (fst v).
+Definition g_sort_values_stable (l : list (reg * gvalue)) : list (reg * gvalue) :=
+  GV.Tables.RegList.sort_by value_key l.
